@@ -66,7 +66,7 @@ def doWF(vtChannels: np.ndarray,
     # Ps should be a numpy array
     assert isinstance(Ps, np.ndarray)
 
-    while (sum(Ps) > dPt) and (dRemoveChannels < dNChannels):
+    while (np.sum(Ps) > dPt) and (dRemoveChannels < dNChannels):
         dRemoveChannels += 1
         minMu = float(noiseVar) / (
             Es * vtChannelsSorted[dNChannels - dRemoveChannels - 1])
